@@ -17,6 +17,42 @@ Proof.
 Qed.
 Print Assumptions C36_unique.
 
+(* When the translator could not read DetermineBlockType's source
+   (Gen.arms_source = "probe"), Gen.layouts is the OBSERVED step function:
+   the real function swept over versions 0..probe_limit and header body
+   lengths 0..probe_max_len.  What that establishes about the implementation
+   `impl` is premise Hobs; that it answers nothing outside the probed box is
+   NOT observed and is the explicit extra premise Hout.  (With
+   arms_source = "syntax", determine itself is the reading of the source and
+   C36_unique above needs no such premise.) *)
+Section probe.
+  Variable impl : N -> N -> option N.   (* DetermineBlockType on (body length, protocol major) *)
+  Hypothesis Hobs : forall len pv, len <= probe_max_len -> pv <= probe_limit -> impl len pv = determine len pv.
+  Hypothesis Hout : forall len pv, probe_max_len < len \/ probe_limit < pv -> impl len pv = None.
+
+  Theorem C36_unique_probe : forall (len pv t : N),
+    impl len pv = Some t ->
+    exists e, In e eras /\ In t (e_block_types e) /\ era_in_range pv e = true /\
+              forall e', In e' eras -> era_in_range pv e' = true -> e_id e' = e_id e.
+  Proof.
+    intros len pv t H.
+    destruct (N.le_gt_cases len probe_max_len) as [Hl|Hl];
+      [destruct (N.le_gt_cases pv probe_limit) as [Hp|Hp]|].
+    - rewrite (Hobs len pv Hl Hp) in H. now apply C36_unique with (len := len).
+    - rewrite (Hout len pv (or_intror Hp)) in H. discriminate.
+    - rewrite (Hout len pv (or_introl Hl)) in H. discriminate.
+  Qed.
+
+  (* every declared version inside the probed box is dispatched to its era by the implementation *)
+  Theorem C36_total_on_known_probe : forall l c pv,
+    In l layouts -> In c (l_cases l) -> in_rng pv c = true ->
+    l_len l <= probe_max_len -> pv <= probe_limit ->
+    impl (l_len l) pv = Some (ret_of c).
+  Proof.
+    intros l c pv Hl Hc Hr Hlen Hp. rewrite (Hobs _ _ Hlen Hp). now apply determine_complete.
+  Qed.
+End probe.
+
 (* era ids identify eras (so "e_id e' = e_id e" above means the same era) *)
 Theorem C36_era_ids_unique : forall e e', In e eras -> In e' eras -> e_id e = e_id e' -> e_name e = e_name e'.
 Proof.
